@@ -87,6 +87,11 @@ impl DropList for ()
 {
     fn drop_cell(_: ErasedCell) { panic!("a value was dropped by the world model but the harness declared no drop table") }
 }
+/// Drop table that leaks every value: for harnesses in which the effects of dropping a component or resource are
+/// not the subject (stated in the obligation's bounds).
+pub struct LeakAll;
+impl DropList for LeakAll { fn drop_cell(cell: ErasedCell) { core::mem::forget(cell); } }
+
 macro_rules! drop_list {
     ($($n:ident),*) => {
         impl<$($n: 'static),*> DropList for ($($n,)*)
